@@ -37,7 +37,7 @@ type srvChildOpts struct {
 	Dir        string         `json:"dir"`
 	Users      []srv.UserSpec `json:"users,omitempty"`
 	JailMillis int            `json:"jail_ms,omitempty"`
-	Recorder   bool           `json:"recorder,omitempty"` // record panics instead of dying
+	Recorder   bool           `json:"recorder,omitempty"`    // record panics instead of dying
 	StoreFault bool           `json:"store_fault,omitempty"` // wrap the store so that calls can be made to fail
 	StartFP    string         `json:"start_fp,omitempty"`    // "mode name k": a failpoint armed before the server starts
 	Nonce      string         `json:"nonce,omitempty"`       // part of the ids the harness remote hands out (default: the pid)
